@@ -429,6 +429,21 @@ def main():
             okf = c.func in ("prepare_next", "handle_success") or c.func in exiting_handlers
             add("R19.e", "next-writer|%s|%s" % (c.func, c.words[0]), "bin/newpolicy.sh", "`%s` in %s" % (c.text, c.func), okf, "work directory modified in an unexpected phase")
 
+    # ---- R19.l: every build starts from an empty work directory
+    rule("R19.l", "Every build starts from an empty work directory: prepare_next removes `next` unconditionally (`rm -rf $NEXT`, not inside an if/loop/and-or list) and creates it anew (`mkdir $NEXT`) before any other command of prepare_next names a path below it (redirection to $PLOG, clone into src, mkdir $PCODE). What a killed or failed earlier build left in next/code would otherwise be renamed to pN with the next successful compile: `current` then names a directory that no compile of its src produces.")
+    pn = [c for c in cmds if c.func == "prepare_next"]
+    rmn = [c for c in pn if c.words and c.words[0] == "rm" and any(nx(w) for w in c.words[1:])]
+    mkn = [c for c in pn if c.words and c.words[0] == "mkdir" and any(nx(w) for w in c.words[1:])]
+    rm_ok = len(rmn) >= 1 and not rmn[0].ctx and not rmn[0].andor and any(re.match(r"^-[a-zA-Z]*r", w) or w == "--recursive" for w in rmn[0].words[1:])
+    add("R19.l", "work-dir-removed", "bin/newpolicy.sh", "prepare_next removes the work directory unconditionally: %s" % [(c.text, c.ctx) for c in rmn], rm_ok,
+        "leftovers of an earlier unfinished build survive into the next policy")
+    mk_ok = len(mkn) >= 1 and not mkn[0].ctx and bool(rmn) and rmn[0].order < mkn[0].order
+    add("R19.l", "work-dir-created-after-removal", "bin/newpolicy.sh", "`mkdir $NEXT` follows the removal unconditionally: %s" % [(c.text, c.ctx) for c in mkn], mk_ok, "")
+    if rmn:
+        below = lambda w: re.search(r"\$\{?(NEXT|PSRC|PCODE|PLOG)\b", w) is not None
+        early = [c.text for c in pn if c.order < rmn[0].order and not re.match(r"^[A-Za-z_][A-Za-z0-9_]*=", c.words[0] if c.words else "") and (any(below(w) for w in c.words) or any(below(str(x)) for x in getattr(c, "redirs", [])))]
+        add("R19.l", "nothing-below-before-removal", "bin/newpolicy.sh", "no command of prepare_next uses a path below `next` before the removal", not early, "used before the removal: %s" % early)
+
     # other scripts in bin/
     others = 0
     for fn in sorted(os.listdir(os.path.join(REPO, "bin"))):
